@@ -145,6 +145,20 @@ Proof.
   unfold deref1, rkind, value_of; cbn. destruct (nk_unsigned k); reflexivity.
 Qed.
 
+(** the type assertion for *decimal.Decimal only fires on pointers *)
+Lemma convert_number_check_base_eq v :
+  not_ptr v -> convert_number_check v = convert_number_check_base v.
+Proof. destruct v; intros H; try reflexivity; destruct H. Qed.
+
+(** ... more precisely, only on a non-nil pointer to a decimal *)
+Lemma convert_number_check_base_eq' v :
+  (forall d, v <> VPtr (Some (VDec d))) -> convert_number_check v = convert_number_check_base v.
+Proof.
+  intros H. destruct v as [| | | | | | t | | | | | |]; try reflexivity.
+  destruct t as [g|]; try reflexivity. destruct g; try reflexivity.
+  exfalso. eapply H. reflexivity.
+Qed.
+
 Lemma convert_number_check_not_ptr v :
   not_ptr v ->
   convert_number_check v =
@@ -155,7 +169,8 @@ Lemma convert_number_check_not_ptr v :
   | _ => (false, dzero)
   end.
 Proof.
-  intros H. unfold convert_number_check. rewrite (deref1_not_ptr v H).
+  intros H. rewrite (convert_number_check_base_eq v H).
+  unfold convert_number_check_base. rewrite (deref1_not_ptr v H).
   destruct (is_empty_value (value_of v)); cbn [value_of rv_v rv_if];
     destruct v; try reflexivity; destruct f; reflexivity.
 Qed.
